@@ -729,29 +729,47 @@ func lemmaEnc32Cat(a string, v int) {}
 //@   loop 0 invariant[work] string(buf.Buffer.data) + specEncIPs(S, rangeindex+1) == specEncIPs(S, 0)
 
 // containers: the fixed header in front of the nested option list
+// Options.ToBytes: the list's encoding is written into a buffer of its own: the result is new memory (or nil for an empty
+// list), whatever the options' own encoders return
+//@ contract (Options).ToBytes
+//@   ensures[fresh] result == nil || fresh(result)
+//@   loop 0 invariant[buffer] lexOK(buf) && fresh(buf) && fresh(buf.Buffer) && (buf.Buffer.data == nil || fresh(buf.Buffer.data))
+
+// nestedTail(result, n, list): after the n header bytes comes exactly what Options.ToBytes returned for the container's own
+// option list (one call of it, on that list): the nested options are never dropped, reordered or taken from elsewhere.
+// (Own-proof clause: states where the tail comes from; what Options.ToBytes writes per option is its own contract.)
+//@ define nestedTail(result, n, list) = called("(Options).ToBytes") && callarg("(Options).ToBytes", 0) == list && len(result) == n + len(callresult("(Options).ToBytes", 0)) && string(result) == string(result)[0:n] + string(callresult("(Options).ToBytes", 0))
+
 //@ contract (*OptIANA).ToBytes
 //@   requires secsOK(op.T1) && secsOK(op.T2)
 //@   ensures[header] len(result) >= 12 && string(result)[0:4] == string(op.IaId[:]) && string(result)[4:8] == specEnc32(specSecs(int(op.T1))) && string(result)[8:12] == specEnc32(specSecs(int(op.T2)))
+//@   ensures[nested] nestedTail(result, 12, op.Options.Options)
 
 //@ contract (*OptIAPD).ToBytes
 //@   requires secsOK(op.T1) && secsOK(op.T2)
 //@   ensures[header] len(result) >= 12 && string(result)[0:4] == string(op.IaId[:]) && string(result)[4:8] == specEnc32(specSecs(int(op.T1))) && string(result)[8:12] == specEnc32(specSecs(int(op.T2)))
+//@   ensures[nested] nestedTail(result, 12, op.Options.Options)
 
 //@ contract (*OptIATA).ToBytes
 //@   ensures[header] len(result) >= 4 && string(result)[0:4] == string(op.IaId[:])
+//@   ensures[nested] nestedTail(result, 4, op.Options.Options)
 
 //@ contract (*OptIAAddress).ToBytes
 //@   requires secsOK(op.PreferredLifetime) && secsOK(op.ValidLifetime)
 //@   ensures[header] len(result) >= 24 && string(result)[0:16] == specIP16(string(op.IPv6Addr)) && string(result)[16:20] == specEnc32(specSecs(int(op.PreferredLifetime))) && string(result)[20:24] == specEnc32(specSecs(int(op.ValidLifetime)))
+//@   ensures[nested] nestedTail(result, 24, op.Options.Options)
 
 //@ contract (*OptIAPrefix).ToBytes
 //@   requires secsOK(op.PreferredLifetime) && secsOK(op.ValidLifetime)
 //@   ensures[header] len(result) >= 25 && string(result)[0:4] == specEnc32(specSecs(int(op.PreferredLifetime))) && string(result)[4:8] == specEnc32(specSecs(int(op.ValidLifetime)))
 //@   ensures[prefix] op.Prefix == nil ==> string(result)[8:25] == specZeros(17)
 //@   ensures[prefix-ip] op.Prefix != nil ==> string(result)[9:25] == specIP16(string(op.Prefix.IP))
+//@   ensures[nested] nestedTail(result, 25, op.Options.Options)
 
 //@ contract (*OptVendorOpts).ToBytes
 //@   ensures[header] len(result) >= 4 && string(result)[0:4] == specEnc32(int(op.EnterpriseNumber))
+// (the vendor options are written through (*Lexer).WriteData, i.e. encoding/binary's reflection, whose trusted contract
+// says nothing about the bytes written: no nested-tail clause here)
 
 //@ contract (*OptFQDN).ToBytes
 //@   requires op.DomainName != nil
@@ -759,9 +777,11 @@ func lemmaEnc32Cat(a string, v int) {}
 
 //@ contract (*Message).ToBytes
 //@   ensures[header] len(result) >= 4 && string(result)[0:1] == specByte(int(m.MessageType)) && string(result)[1:4] == string(m.TransactionID[:])
+//@   ensures[nested] nestedTail(result, 4, m.Options.Options)
 
 //@ contract (*RelayMessage).ToBytes
 //@   ensures[header] len(result) >= 34 && string(result)[0:1] == specByte(int(r.MessageType)) && string(result)[1:2] == specByte(int(r.HopCount)) && string(result)[2:18] == specIP16(string(r.LinkAddr)) && string(result)[18:34] == specIP16(string(r.PeerAddr))
+//@   ensures[nested] nestedTail(result, 34, r.Options.Options)
 
 //@ contract (*optRelayMsg).ToBytes
 //@   requires op.Msg != nil
